@@ -240,7 +240,9 @@ func (CoreScenario) Gen(r *rand.Rand, prop string) *SvcCase {
 			}
 		}
 	}
-	lifecycle := prop == "C03" || chance(r, 40)
+	// (C15 runs this scenario for query events in several Serve calls of one
+	// service: always a lifecycle, always query events)
+	lifecycle := prop == "C03" || prop == "C15" || chance(r, 40)
 	c.Epochs = 1
 	if lifecycle && chance(r, 50) {
 		c.Epochs = 2 + r.IntN(2)
@@ -268,7 +270,7 @@ func (CoreScenario) Gen(r *rand.Rand, prop string) *SvcCase {
 	}
 	id := 0
 	next := func() int { id++; return id }
-	withQE := chance(r, 20)
+	withQE := chance(r, 20) || prop == "C15"
 	// peer
 	peer := ActorSpec{Name: "peer"}
 	nreq := 3 + r.IntN(10)
@@ -281,7 +283,7 @@ func (CoreScenario) Gen(r *rand.Rand, prop string) *SvcCase {
 		}
 		op.Ep = r.IntN(c.Epochs)
 		op.Script = yields(r, 2)
-		if withQE && strings.HasPrefix(op.Subject, "call.") && !strings.HasSuffix(op.Subject, ".new") && chance(r, 40) {
+		if withQE && strings.HasPrefix(op.Subject, "call.") && !strings.HasSuffix(op.Subject, ".new") && (chance(r, 40) || prop == "C15") {
 			op.Script = append(op.Script, "qe:y,"+pick(r, "model", "coll", "chg", "notfound", ""))
 			nqe++
 		}
@@ -506,6 +508,11 @@ func RunSvc(sim *sched.Sim, c *SvcCase, raceMode bool, setup func(e *Engine)) *S
 			ep, _ := strconv.Atoi(t.Arg)
 			if ep == 0 || e.Epochs[ep-1].ShutdownReturn != 0 || life.IsDone() {
 				return true
+			}
+			if e.Epochs[ep-1].ShutdownInvoke != 0 && life.IsParked() && life.Point != "life.wait" {
+				// the Shutdown call itself is parked at a yield point
+				// inside the library: let it go on instead of polling
+				return false
 			}
 			return libParked == 0
 		}
